@@ -1,6 +1,7 @@
 package main
 
 import (
+	"fmt"
 	"go/ast"
 	"go/token"
 	"go/types"
@@ -14,6 +15,7 @@ func init() { registry["C04"] = checkC04 }
 func checkC04(c *Check) {
 	L := c.L
 	c.Expl = "Structural mechanisms behind 'statically ill-formed programs are never accepted': every parsed statement passes the resolver and the type checker (R4.1); the loop-depth counter, scope stack and current-function marker are balanced on every path (R4.2); for every static fault class of the property the diagnostic exists in its function and is control-dependent on the guarding predicate (R4.3); the type checker's admissibility tables - operators, casts and every value context (initialiser, assignment, argument, Referenz argument, return, condition, loop header, list literal, indexing) - evaluated cell-wise over the type classes (engine E2) admit nothing that the reference table of DDP's static rules rejects (R4.4); sibling rules agree (R4.5). Not decided: that the predicates are right for every program beyond the class representatives; name resolution for every scope shape."
+	checkC04SpeculativeErrors(c)
 	// R4.4 / R4.5 on the cell tables
 	lines, t, ctx, _ := computeAllCheckerLines(L, c.Tier)
 	r4 := c.Rule("R4.4", "the type checker admits no (operator | context, type classes) combination that the reference table rejects", 1000)
@@ -468,6 +470,181 @@ func init() {
 	registry["XEMIT"] = func(c *Check) {
 		for _, e := range collectEmissions(c.L) {
 			println(e.code, "\t", c.L.QName(e.fi.Obj), "\t", c.L.Pos(e.call.Pos()), "\t", strings.Join(e.atoms, " "))
+		}
+	}
+}
+
+// R4.7: diagnostics raised while an argument of a call is parsed speculatively are delivered with every candidate that
+// uses the argument, whether it was parsed just now or taken from the cache; and alias() hands the collected diagnostics of
+// the candidate it returns to the error handler.
+func checkC04SpeculativeErrors(c *Check) {
+	L := c.L
+	r := c.Rule("R4.7", "diagnostics of speculatively parsed call arguments reach the error handler with the candidate that is returned", 3)
+	pp := L.ByRel["src/parser"]
+	info := pp.TypesInfo
+	fi := L.Fn("src/parser.(*parser).checkAlias")
+	if fi == nil {
+		r.Und("parser.(*parser).checkAlias", token.NoPos, "function not found")
+		return
+	}
+	// objects: the cache entry variable, the collected-errors variable
+	var cached, reported types.Object
+	ast.Inspect(fi.Decl.Body, func(n ast.Node) bool {
+		as, ok := n.(*ast.AssignStmt)
+		if !ok {
+			return true
+		}
+		for i, l := range as.Lhs {
+			id, ok := l.(*ast.Ident)
+			if !ok || info.Defs[id] == nil {
+				continue
+			}
+			t := info.Defs[id].Type().String()
+			if strings.HasSuffix(t, "parser.cachedArg") && cached == nil {
+				cached = info.Defs[id]
+			}
+			if strings.HasSuffix(t, "[]github.com/DDP-Projekt/Kompilierer/src/ddperror.Error") && reported == nil && i < len(as.Rhs) {
+				reported = info.Defs[id]
+			}
+		}
+		return true
+	})
+	if cached == nil || reported == nil {
+		r.Und("parser.(*parser).checkAlias|argument cache", fi.Decl.Pos(), "the cache entry or the collected-errors variable was not found")
+		return
+	}
+	uses := func(n ast.Node, o types.Object) bool {
+		f := false
+		ast.Inspect(n, func(x ast.Node) bool {
+			if id, ok := x.(*ast.Ident); ok && info.Uses[id] == o {
+				f = true
+			}
+			return true
+		})
+		return f
+	}
+	// fact: the errors of the current cache entry have been forwarded to the collected errors
+	forwards := func(n ast.Node) bool {
+		f := false
+		ast.Inspect(n, func(x ast.Node) bool {
+			switch y := x.(type) {
+			case *ast.AssignStmt:
+				// reported = append(reported, cached.Errors...)
+				if len(y.Lhs) == 1 && len(y.Rhs) == 1 {
+					if id, ok := y.Lhs[0].(*ast.Ident); ok && info.Uses[id] == reported {
+						if call, ok := y.Rhs[0].(*ast.CallExpr); ok && len(call.Args) >= 2 && uses(call.Args[0], reported) {
+							if sel, ok := ast.Unparen(call.Args[1]).(*ast.SelectorExpr); ok && sel.Sel.Name == "Errors" && uses(sel.X, cached) {
+								f = true
+							}
+						}
+					}
+				}
+			case *ast.FuncLit:
+				// an error handler that appends every error to both the collected errors and the cache entry
+				toRep, toCache := false, false
+				ast.Inspect(y.Body, func(z ast.Node) bool {
+					if as, ok := z.(*ast.AssignStmt); ok && len(as.Lhs) == 1 && len(as.Rhs) == 1 {
+						if call, ok := as.Rhs[0].(*ast.CallExpr); ok && len(call.Args) == 2 {
+							if id, ok := as.Lhs[0].(*ast.Ident); ok && info.Uses[id] == reported {
+								toRep = true
+							}
+							if sel, ok := as.Lhs[0].(*ast.SelectorExpr); ok && sel.Sel.Name == "Errors" && uses(sel.X, cached) {
+								toCache = true
+							}
+						}
+					}
+					return true
+				})
+				if toRep && toCache {
+					f = true
+				}
+				return false
+			}
+			return true
+		})
+		return f
+	}
+	g := L.CFG(fi)
+	mf := &mustFlow{G: g, Init: 0, Transfer: func(n ast.Node, s uint32) uint32 {
+		if as, ok := n.(*ast.AssignStmt); ok {
+			for _, l := range as.Lhs {
+				if id, ok := l.(*ast.Ident); ok && (info.Defs[id] == cached || info.Uses[id] == cached) {
+					s &^= 1 // a new cache entry is current
+				}
+			}
+		}
+		if forwards(n) {
+			s |= 1
+		}
+		return s
+	}}
+	mf.Run()
+	nuse := 0
+	for _, b := range g.Blocks {
+		if !b.Live {
+			continue
+		}
+		for i, nd := range b.Nodes {
+			as, ok := nd.(*ast.AssignStmt)
+			if !ok || len(as.Lhs) != 1 || len(as.Rhs) != 1 {
+				continue
+			}
+			// args[name] = cached.Arg : the argument is used for this candidate
+			ix, ok := as.Lhs[0].(*ast.IndexExpr)
+			if !ok {
+				continue
+			}
+			sel, ok := ast.Unparen(as.Rhs[0]).(*ast.SelectorExpr)
+			if !ok || sel.Sel.Name != "Arg" || !uses(sel.X, cached) {
+				continue
+			}
+			_ = ix
+			nuse++
+			r.Decide(mf.StateAt(b, i)&1 != 0, "parser.(*parser).checkAlias|argument used for the candidate", as.Pos(), "on every path (parsed now or taken from the cache) the argument's diagnostics were added to the candidate's", "an argument is bound to the candidate on a path on which the diagnostics raised while it was parsed were not added to the candidate's diagnostics: when the accepted candidate takes the argument from the cache, an ill-formed argument (wrong article, a constant passed by Referenz) is accepted without any diagnostic and the module is not marked faulty")
+		}
+	}
+	if nuse == 0 {
+		r.Und("parser.(*parser).checkAlias|argument used for the candidate", fi.Decl.Pos(), "the binding of a cached argument was not found")
+	}
+	// alias(): every return of the built call/literal is preceded by apply(p.errorHandler, errs)
+	if af := L.Fn("src/parser.(*parser).alias"); af != nil {
+		ga := L.CFG(af)
+		mfa := &mustFlow{G: ga, Init: 0, Transfer: func(n ast.Node, s uint32) uint32 {
+			callsIn(n, func(call *ast.CallExpr) {
+				if fn := Callee(info, call); fn != nil && fn.Name() == "apply" && len(call.Args) == 2 && strings.HasSuffix(types.ExprString(call.Args[0]), "errorHandler") {
+					s |= 1
+				}
+				if fn := Callee(info, call); fn != nil && fn.Name() == "checkAlias" {
+					s &^= 1 // a new candidate's diagnostics are pending
+				}
+			})
+			return s
+		}}
+		mfa.Run()
+		nret := 0
+		for _, b := range ga.Blocks {
+			if !b.Live {
+				continue
+			}
+			for i, nd := range b.Nodes {
+				ret, ok := nd.(*ast.ReturnStmt)
+				if !ok || len(ret.Results) != 1 {
+					continue
+				}
+				call, ok := ret.Results[0].(*ast.CallExpr)
+				if !ok {
+					continue
+				}
+				if id, ok := call.Fun.(*ast.Ident); !ok || id.Name != "callOrLiteralFromAlias" {
+					continue
+				}
+				nret++
+				key := "parser.(*parser).alias|diagnostics delivered before the call is returned"
+				if nret > 1 {
+					key += fmt.Sprintf(" #%d", nret)
+				}
+				r.Decide(mfa.StateAt(b, i)&1 != 0, key, ret.Pos(), "apply(errorHandler, errs) precedes the return", "a call built from a candidate is returned without handing the candidate's diagnostics to the error handler")
+			}
 		}
 	}
 }
